@@ -570,7 +570,7 @@ def gen_case(rng, runner=None, knobs=None):
         for c, cr in enumerate(creators):
             for p in placeholders(cr):
                 for d in make_tasks(cr, p):
-                    if cr['regex'] or rng.random() < 0.2:
+                    if cr['regex'] or rng.random() < 0.08:
                         targets += d['targets']
                     if ':' in d['name']:
                         subs.append(d['name'])
@@ -584,7 +584,7 @@ def gen_case(rng, runner=None, knobs=None):
                 sel.append(rng.choice(tasknames))
             elif r < 0.55 and subs:
                 sel.append(rng.choice(subs))
-            elif r < 0.9 and targets:
+            elif r < 0.94 and targets:
                 sel.append(rng.choice(targets))
             else:
                 sel.append(rng.choice(['o0_zz', 'o1_zz', 'nobody', 'o0_a']))
@@ -994,8 +994,8 @@ def run(ctx, scale=1.0):
     ctx.extra['exhaustive_small_scope'] = {'cases': len(ex), 'what': '3 creator styles x 4 trigger states x 6 selection '
                                            'shapes x {serial, thread-2}'}
     rng = ctx.rng
-    n_rand = int((2400 if quick else 20000) * ctx.boost * scale)
-    n_proc = int((6 if quick else 60) * min(ctx.boost, 2) * scale)
+    n_rand = int((2400 if quick else 70000) * ctx.boost * scale)
+    n_proc = int((6 if quick else 150) * min(ctx.boost, 2) * scale)
     gen = [(rng.randrange(1 << 60), None, None) for _ in range(n_rand)]
     size = 25 if quick else 60
     batches = [{'cases': plain, 'shrink_s': 12.0}] if plain else []
